@@ -12,6 +12,7 @@ mkdir -p .build evidence replays
 # 2. full .vo build (never -vos)
 cd coq
 /venv/bin/python -W ignore -c "import sys; sys.path.insert(0,'../harness'); import vf; vf.refresh_makefile()"
-timeout 3000 make -j16 2>&1 | tail -40
-test "${PIPESTATUS[0]}" = 0
-echo "setup ok"
+# -k: one property's broken file must not keep the others from building; each
+# check rebuilds and audits its own cone anyway and reports what does not build.
+timeout 3000 make -k -j16 > ../.build/setup-make.log 2>&1 || { echo "WARNING: some files did not build:"; grep -B2 -A8 "Error" ../.build/setup-make.log | head -60; }
+echo "setup done"
